@@ -47,6 +47,16 @@ def obj_sig(ip, o):
 
 def as_expr(ip, v):
     if isinstance(v, E):
+        if v.op == 'sig' and getattr(v.args[0], 'alias', None) is not None:
+            # a combinational local the reference tree does not have: read through it -- where its defining context holds
+            sts, lits = getattr(v.args[0], 'alias_ctx', ((), ()))
+            if sts or lits:
+                cur_s = tuple(ip.cur_states()) if hasattr(ip, 'cur_states') else ()
+                cur_l = {l.canon() for l in ip.guard()} if hasattr(ip, 'guard') else set()
+                if cur_s[:len(sts)] != sts or not set(lits) <= cur_l:
+                    raise AnalysisError('construct not understood: the combinational local %s, defined under a condition, is '
+                                        'read outside that condition' % v.args[0].name)
+            return v.args[0].alias
         return v
     if isinstance(v, bool):
         return E('const', val=int(v))
@@ -77,6 +87,13 @@ def _maxw(a, b):
     if a is None or b is None:
         return None
     return max(a, b)
+
+
+def _natw(e):
+    """Width of an operand; a non-negative integer constant has its natural width (Amaranth: bits_for(value))."""
+    if isinstance(e, E) and e.w is None and e.op == 'const' and isinstance(e.val, int) and not isinstance(e.val, bool) and e.val >= 0:
+        return max(e.val.bit_length(), 1)
+    return e.w if isinstance(e, E) else None
 
 
 def mk(op, args, w=None):
@@ -234,10 +251,10 @@ def binop(ip, opname, a, b, node=None):
                 args.append(x)
         return E(op, args, w=_maxw(ea.w, eb.w))
     if op == '+':
-        w = _maxw(ea.w, eb.w)
+        w = _maxw(_natw(ea), _natw(eb))
         return E(op, (ea, eb), w=(w + 1) if w is not None else None)
     if op == '-':
-        w = _maxw(ea.w, eb.w)
+        w = _maxw(_natw(ea), _natw(eb))
         return E(op, (ea, eb), w=(w + 1) if w is not None else None)
     if op == '<<':
         if eb.op == 'const' and ea.w is not None:
@@ -543,6 +560,8 @@ def name_value(ip, v, name, parent):
             dn = getattr(si, 'decl_name', None)
             si.leaf, si.parent = _unique(ip, dn if (dn and parent is None) else name, parent, si), parent
             si._named = True
+            si.var_name = name if parent is None else None          # bound to a plain local variable of this name
+            si.var_file = getattr(ip, 'curfile', None)
     elif isinstance(v, (list, tuple)):
         for i, x in enumerate(v):
             name_value(ip, x, '%s[%d]' % (name, i), parent)
@@ -1320,7 +1339,13 @@ def _h_cat(ip, sv, args, kwargs, node):
 
 def _h_mux(ip, sv, args, kwargs, node):
     c, a, b = (as_expr(ip, x) for x in args[:3])
-    return E('mux', (c, a, b), w=_maxw(a.w, b.w))
+    from .ir import _known_one_bit
+    if _known_one_bit(c) and a.op == 'const' and b.op == 'const' and isinstance(a.val, int) and isinstance(b.val, int):
+        if (a.val, b.val) == (1, 0):
+            return c                              # Mux(flag, 1, 0) is the flag
+        if (a.val, b.val) == (0, 1):
+            return invert(c)                      # Mux(flag, 0, 1) is its negation
+    return E('mux', (c, a, b), w=_maxw(_natw(a), _natw(b)))
 
 
 def _h_repl(ip, sv, args, kwargs, node):
